@@ -35,7 +35,7 @@ def parseCard (j : Json) : Except String Card := do
   | "transform" => return .transform (← getNat j "num")
   | "thermal" => return .thermal (← getNat j "num")
   | "mode" => return .mode
-  | "cellmod" => return .cellMod (← getNat j "kind") (← (← j.getObjVal? "cant").getBool?)
+  | "cellmod" => return .cellMod (← getNat j "kind") (← (← j.getObjVal? "cant").getBool?) (← getNat j "n")
   | "other" => return .other
   | _ => throw s!"unknown card {t}"
 
@@ -74,7 +74,15 @@ def tableJson : Json :=
       ("normal", outcomeStr (outcome r c .normal)), ("check", outcomeStr (outcome r c .check)),
       ("objectInitMap", (objectInitMap c).name), ("constructMap", (constructMap c).name)]))).toArray
 
+def pairJson (n : Nat) : Json :=
+  match pairUp (List.range n) with
+  | .ok ps => Json.mkObj [("out", "ok"), ("pairs", toJson ps.length)]
+  | .error _ => Json.mkObj [("out", "error"), ("cls", (pairErrClass .leftover).name)]
+
 def runCase (j : Json) : Except String Json := do
+  match j.getObjVal? "pair" with
+  | .ok n => return pairJson (← n.getNat?)
+  | .error _ =>
   match j.getObjVal? "table" with
   | .ok _ => return tableJson
   | .error _ =>
